@@ -555,28 +555,38 @@ def dbRevive (db : DB) (cn id : Nat) : DB × ReviveRes :=
 
 /-! ### iteration views -/
 
+/-- the scan of `selectNFromBucket` over the candidate ids (ascending): stop once `limit` ids are collected;
+an id `inGarbage` reports as removed is skipped *but still becomes the last id looked at* -/
+def listScan (P : Nat → Bool) (limit : Nat) (ids : List Nat) (st : List Nat × Nat) : List Nat × Nat :=
+  ids.foldl (fun (st : List Nat × Nat) i =>
+    if st.1.length ≥ limit then st
+    else if !P i then (st.1, i)
+    else (st.1 ++ [i], i)) st
+
+/-- the ids `selectNFromBucket` iterates: physical objects with id > `after` (0 = from the start) -/
+def Cnr.listCands (c : Cnr) (after : Nat) : List Nat := (c.recs.filter fun r => r.phy && r.id > after).map (·.id)
+
 /-- one page of `selectNFromBucket`: physical objects with id > `after` (0 = from the start), skipping the
 ones `inGarbage` reports as removed; returns the page and the last id *looked at*. -/
 def Cnr.listPage (c : Cnr) (after limit : Nat) (acc : List Nat) : List Nat × Nat :=
   if c.gcMark then (acc, after)
+  else listScan (fun i => c.inGarbage i == .available) limit (c.listCands after) (acc, after)
+
+/-- one bucket of `listWithCursor`'s loop; state = (result so far, cursor, `len(result) >= count` seen) -/
+def dbListStep (count : Nat) (st : List (Nat × Nat) × (Nat × Nat) × Bool) (b : Nat × Cnr) :
+    List (Nat × Nat) × (Nat × Nat) × Bool :=
+  if st.2.2 then st
   else
-    (c.recs.filter fun r => r.phy && r.id > after).foldl (fun (st : List Nat × Nat) r =>
-      if st.1.length ≥ limit then st
-      else if c.inGarbage r.id != .available then (st.1, r.id)
-      else (st.1 ++ [r.id], r.id)) (acc, after)
+    let after := if b.1 != st.2.1.1 then 0 else st.2.1.2
+    let pg := b.2.listPage after (count - st.1.length) []
+    let acc' := st.1 ++ pg.1.map fun i => (b.1, i)
+    (acc', (b.1, pg.2), decide (acc'.length ≥ count))
 
 /-- `DB.ListWithCursor(count, cursor)`: addresses of the page and the new cursor (`none` = end of listing) -/
 def dbList (db : DB) (count : Nat) (cursor : Option (Nat × Nat)) : List (Nat × Nat) × Option (Nat × Nat) :=
   let start := cursor.getD (0, 0)
   let buckets := db.filter fun b => b.1 ≥ start.1 && b.1 != 0
-  let res := buckets.foldl (fun (st : List (Nat × Nat) × (Nat × Nat) × Bool) b =>
-    let (acc, cur, stop) := st
-    if stop then st
-    else
-      let after := if b.1 != cur.1 then 0 else cur.2
-      let (ids, last) := b.2.listPage after (count - acc.length) []
-      let acc' := acc ++ ids.map fun i => (b.1, i)
-      (acc', (b.1, last), decide (acc'.length ≥ count))) ([], start, false)
+  let res := buckets.foldl (dbListStep count) ([], start, false)
   if res.1.isEmpty then ([], none) else (res.1, some res.2.1)
 
 /-- value of an expiration attribute in the integer index: `parseInt` accepts it and it is a non-negative
